@@ -87,7 +87,7 @@ def run_item(item):
     if mode == 'pty' and '--dark' not in opts and '--light' not in opts:
         opts['--dark'] = True
     data = ('\n'.join(lines) + '\n').encode()
-    res = runner.run_delta(gen.to_args(opts), data, mode=mode, pty_size=size)
+    res = runner.run_delta(gen.to_args(opts), data, mode=mode, pty_size=size, **workload.parent_kw(case))
     c = crash_outcome(res, ID)
     if c is not None:
         return c
